@@ -603,7 +603,75 @@ def r8_7(F, R):
     R.floor("R8.7", "hand-written checkpoint functions examined", n, 40)
 
 
+def r8_8(F, R):
+    from ..facts import const_str
+    R.rule("R8.8", "names are unique in the serialised form: within one serialised type no two variants (and no two fields) are written under the same "
+                   "name — the self-describing formats (JSON, MessagePack) identify a variant by its name, so two variants that share one "
+                   "(`#[serde(rename = ..)]` copied from the neighbouring line) come back as the first of them")
+    n = 0
+    for fn in sorted(F.fns.values(), key=lambda f: f.name):
+        nm = fn.name
+        if "serde::ser::Serialize for " not in nm or not nm.endswith("::serialize"):
+            continue
+        if fn.crate.endswith(".test") or "::tests::" in nm:
+            continue
+        variants = {}
+        fields = {}
+        for bi, t in fn.calls():
+            cn = strip_generics(callee_name(t) or "").split("::")[-1]
+            strs = [const_str(a["c"]) if isinstance(a, dict) and a.get("c") is not None else None for a in t.get("args") or []]
+            strs = [s for s in strs if isinstance(s, str)]
+            if cn in ("serialize_unit_variant", "serialize_newtype_variant", "serialize_tuple_variant", "serialize_struct_variant") and len(strs) >= 2:
+                idx = [a["c"].get("int") for a in t["args"] if isinstance(a, dict) and isinstance(a.get("c"), dict) and "int" in a["c"]]
+                variants.setdefault(strs[-1], set()).add(idx[0] if idx else bi)
+            if cn == "serialize_field" and strs:
+                fields.setdefault(strs[0], set()).add(bi)
+        if not variants and not fields:
+            continue
+        n += 1
+        ty = nm.split("Serialize for ")[1].split(">::serialize")[0]
+        loc = "%s:%d" % (fn.file, fn.line)
+        dup_v = sorted(k for k, v in variants.items() if len(v) > 1)
+        if dup_v:
+            R.violation("R8.8", ty + "/variant-names", "%s writes %d variants under the name %r: JSON and MessagePack read all of them back as the first one" % (
+                ty, len(variants[dup_v[0]]), dup_v[0]), loc)
+        else:
+            R.ok("R8.8", ty, "%d variant names, %d field names, all distinct" % (len(variants), len(fields)), loc, how="table")
+    R.floor("R8.8", "serialised types with named variants or fields", n, 30)
+
+
+def r8_9(F, R):
+    R.rule("R8.9", "a sequence comes back in the order it was written: the hand-written reading side of the checkpoint code (Deserialize impls, `finish_deserialization`, `from_deserialized`) never applies an "
+                   "order-changing operation to a collection it has just read — `swap_remove`, `sort*`, `reverse`, `dedup*`, `rotate_*`, `retain` — "
+                   "a macro's delimiter, a save stack or an interner read back in another order is a different state")
+    # the reading side only: on the writing side a sort (for a deterministic file) is harmless as long as the reader does not depend on the
+    # order, and what the reader depends on is decided by R8.4 (save stack) and R8.1
+    words = ("deserializ", "Deserializ", "from_deserialized", "serde::de::")
+    BAD = ("swap_remove", "sort", "sort_by", "sort_by_key", "sort_unstable", "sort_unstable_by", "sort_unstable_by_key", "reverse", "dedup", "dedup_by",
+           "dedup_by_key", "rotate_left", "rotate_right", "retain", "retain_mut", "swap")
+    n = 0
+    for fn in sorted(F.fns.values(), key=lambda f: f.name):
+        if fn.crate not in ("texlang.lib", "texlang_stdlib.lib", "texcraft_stdext.lib", "common.lib") or "::tests::" in fn.name:
+            continue
+        if not any(w in fn.name for w in words):
+            continue
+        if "::_::" in fn.name and "<impl serde::" in fn.name and fn.raw.get("mac") in ("Serialize", "Deserialize", "serde::Serialize", "serde::Deserialize"):
+            continue
+        n += 1
+        k = 0
+        for bi, t in fn.calls():
+            cn = strip_generics(callee_name(t) or "")
+            last = cn.split("::")[-1]
+            if last in BAD and ("Vec" in cn or "slice" in cn or "[T]" in cn or "VecDeque" in cn):
+                R.violation("R8.9", "%s/%s#%d" % (strip_generics(fn.name), last, k), "%s applies `%s` to a collection while (de)serialising: the elements come back in "
+                            "a different order than they were written" % (fn.name, last), fn.loc(t))
+                k += 1
+    R.floor("R8.9", "hand-written functions of the reading side examined", n, 10)
+
+
 def run(F, R, tier):
+    r8_9(F, R)
+    r8_8(F, R)
     r8_7(F, R)
     r8_1(F, R, tier)
     r8_6(F, R)
